@@ -89,7 +89,15 @@ def run(ctx):
     un = repo.func(MOD, "Dispatcher.unsubscribe")
     gu = q.cfg(un, q.quiet_policy(repo))
     loops = [s for s in un.node.body if isinstance(s, ast.For)]
-    ok = len(loops) == 1 and A.norm(loops[0].iter) == "self._token_mapping.pop(token, [])"
+    ok = len(loops) == 1
+    if ok:
+        it = A.norm(q.expand_at(gu, gu.nodes_of(loops[0])[0], loops[0].iter)) if gu.nodes_of(loops[0]) else A.norm(loops[0].iter)
+        ok = it in ("self._token_mapping.pop(token, [])", "self._token_mapping.pop(token, ())")
+        if it == "self._token_mapping.pop(token, None)" and isinstance(loops[0].iter, ast.Name):
+            # an unknown token: nothing to walk - accepted when that case returns before the loop
+            v = loops[0].iter.id
+            ok = q.guard_true_dominates(gu, loops[0], lambda t: A.norm(t) in (f"{v} is None", f"not {v}"), "F") is None or \
+                q.guard_true_dominates(gu, loops[0], lambda t: A.norm(t) in (f"{v} is not None", v), "T") is None
     ctx.ob("C18.D1-unsubscribe-shape", cname(un, None, "pops the public token and walks its private ids"), ok,
            "" if ok else "unsubscribe no longer removes exactly the given token's entry", nontrivial=True, where=where(un, un.node))
     dis_stmts = [s for s in A.walk_stmts(un.node.body) if isinstance(s, ast.Expr) and A.find_calls(s, "self.cb_registry.disconnect")]
@@ -123,14 +131,54 @@ def run(ctx):
                "this return hands out the id of an existing subscription and unsubscribe disconnects it unconditionally: dropping one subscription "
                "(e.g. a per-call subscription of an already subscribed callable, at the next call) silences the other", nontrivial=True, where=where(con, r))
     sub = repo.func(MOD, "Dispatcher.subscribe")
-    txt = A.norm(sub.node)
-    ok = txt.count("public_token = next(self._counter)") == 2 and "self._token_mapping[public_token] = private_tokens" in txt and "self._token_mapping[public_token] = [private_token]" in txt \
-        and txt.count("return public_token") == 2
-    ctx.ob("C18.D1-unsubscribe-shape", cname(sub, None, "every subscription gets a fresh public token mapped to its own private ids"), ok,
-           "" if ok else "public tokens are reused / mapped to foreign ids", where=where(sub, sub.node))
-    loops = [s for s in A.walk_stmts(sub.node.body) if isinstance(s, ast.For) and A.norm(s.iter) == "DocumentNames"]
-    ok = bool(loops) and any("private_tokens.append(self.cb_registry.connect(key, func))" in A.norm(x) for x in loops[0].body)
-    ctx.ob("C18.D1-unsubscribe-shape", cname(sub, None, "'all' connects the callable to every document name"), ok, "" if ok else "'all' no longer covers every document kind", where=where(sub, sub.node))
+    # decided per case (name == 'all' or not) on the code specialised for that case
+    CONNECT = "self.cb_registry.connect"
+
+    def connected_names(stmts, value):
+        """the document names the stored list of private ids covers: ('each', <iterable>) or ('one', <name expr>) or None"""
+        v = q.straight_line_value(stmts, value)
+        if isinstance(v, ast.ListComp) and len(v.generators) == 1 and not v.generators[0].ifs and isinstance(v.generators[0].target, ast.Name) \
+                and isinstance(v.elt, ast.Call) and A.call_name(v.elt) == CONNECT and len(v.elt.args) == 2 \
+                and A.norm(v.elt.args[0]) == v.generators[0].target.id and A.norm(v.elt.args[1]) == "func":
+            it = v.generators[0].iter
+            if isinstance(it, ast.List) and len(it.elts) == 1:
+                return ("one", A.norm(it.elts[0]))
+            return ("each", A.norm(it))
+        if isinstance(v, ast.List) and len(v.elts) == 1 and isinstance(v.elts[0], ast.Call) and A.call_name(v.elts[0]) == CONNECT and len(v.elts[0].args) == 2 \
+                and A.norm(v.elts[0].args[1]) == "func":
+            return ("one", A.norm(v.elts[0].args[0]))
+        if isinstance(value, ast.Name):
+            # a list filled by a loop: L = [] ; for k in IT: L.append(connect(k, func))
+            L = value.id
+            inits = [s_ for s_ in stmts if isinstance(s_, ast.Assign) and A.norm(s_.targets[0]) == L and A.norm(s_.value) in ("[]", "list()")]
+            fills = [s_ for s_ in stmts if isinstance(s_, ast.For) and isinstance(s_.target, ast.Name) and len(A.body(s_.body)) == 1
+                     and A.norm(A.body(s_.body)[0]) == f"{L}.append({CONNECT}({s_.target.id}, func))"]
+            others = [s_ for s_ in stmts if s_ not in inits and not any(s_ is x or s_ in A.body(x.body) for x in fills)
+                      and any(isinstance(n_, ast.Name) and n_.id == L and isinstance(n_.ctx, ast.Store) for n_ in ast.walk(s_))]
+            if len(inits) == 1 and len(fills) == 1 and not others:
+                return ("each", A.norm(fills[0].iter))
+        return None
+    for case, env in (("all", {"name == 'all'": True, "name != 'all'": False}), ("one", {"name == 'all'": False, "name != 'all'": True})):
+        body = q.specialise(A.body(sub.node), env)
+        flat = list(A.walk_stmts(body))
+        stores = [s_ for s_ in flat if isinstance(s_, ast.Assign) and isinstance(s_.targets[0], ast.Subscript) and A.chain(s_.targets[0].value) == "self._token_mapping"]
+        rets = [s_ for s_ in flat if isinstance(s_, ast.Return)]
+        first_ret = flat.index(rets[0]) if rets else len(flat)
+        stores = [s_ for s_ in stores if flat.index(s_) < first_ret]
+        ok = len(stores) == 1 and bool(rets)
+        if ok:
+            key = A.norm(q.straight_line_value(flat[:flat.index(stores[0])], stores[0].targets[0].slice))
+            ret = A.norm(q.straight_line_value(flat[:first_ret], rets[0].value))
+            ok = key == ret == "next(self._counter)" and isinstance(stores[0].targets[0].slice, ast.Name) and A.norm(rets[0].value) == A.norm(stores[0].targets[0].slice)
+        ctx.ob("C18.D1-unsubscribe-shape", cname(sub, None, f"every subscription gets a fresh public token mapped to its own private ids [{case}]"), ok,
+               "" if ok else "public tokens are reused / mapped to foreign ids", where=where(sub, sub.node))
+        cov = connected_names(flat[:flat.index(stores[0])], stores[0].value) if len(stores) == 1 else None
+        if case == "all":
+            ok = cov is not None and cov[0] == "each" and cov[1] in ("DocumentNames", "list(DocumentNames)", "tuple(DocumentNames)")
+            ctx.ob("C18.D1-unsubscribe-shape", cname(sub, None, "'all' connects the callable to every document name"), ok, "" if ok else f"'all' no longer covers every document kind ({cov})", where=where(sub, sub.node))
+        else:
+            ok = cov is not None and cov[0] == "one" and cov[1] == "DocumentNames[name]"
+            ctx.ob("C18.D1-unsubscribe-shape", cname(sub, None, "a single name connects the callable to that document name"), ok, "" if ok else f"a named subscription is connected to {cov}", where=where(sub, sub.node))
     dis = repo.func(UT, "CallbackRegistry.disconnect")
     ok = any(isinstance(s, ast.Try) and any(isinstance(x, ast.Delete) and A.norm(x) == "del callbackd[cid]" for x in s.body) for s in A.walk_stmts(dis.node.body))
     ctx.ob("C18.D1-unsubscribe-shape", cname(dis, None, "disconnect removes exactly the given id"), ok, "" if ok else "disconnect removes something else", where=where(dis, dis.node))
